@@ -179,7 +179,8 @@ def eval_valid(spec, recipe, warm=None):
             c = build_continuum(spec) if warm is None else A.warm_continuum(spec, warm, "best")
             d = A.DISSIMS.get(recipe)
             dis, idx = d.valid_alignments(c)
-            return {"ok": True, "dis": np.array(dis), "idx": np.array(idx)}
+            # the very objects the library returned (np.asarray does not copy): held across the next call
+            return {"ok": True, "dis": np.asarray(dis), "idx": np.asarray(idx)}
     except CaseTimeout as e:
         return {"ok": False, "exc": f"TIMEOUT {e}"}
     except Exception as e:  # noqa
@@ -249,10 +250,24 @@ def run(task):
            "samples": [], "violations": [], "unspecified": 0,
            "extra": {"buffer_growth_cases": 0, "max_candidates": 0}}
 
+    held = {}
+
     def one(spec, recipe, block=None):
         key = h([spec, recipe])
         res["state_set"].append(key)
         obs = eval_valid(spec, recipe)
+        # the tables returned by EARLIER calls must still be what they were when they were returned
+        if held.get("obs") is not None:
+            po, pc = held["obs"], held["copies"]
+            if not (np.array_equal(po["dis"], pc[0]) and np.array_equal(po["idx"], pc[1])):
+                res["violations"].append({"msg": "the candidate table returned for one continuum changed when "
+                                                 "valid_alignments was called for the next one",
+                                          "case": {"sequence": [held["case"], {"spec": spec if block is None else None,
+                                                                               "block": block, "recipe": recipe}]},
+                                          "sig": h(["overwritten", len(res["violations"]) // 4])})
+        if obs["ok"]:
+            held.update(obs=obs, copies=(obs["dis"].copy(), obs["idx"].copy()),
+                        case={"spec": spec if block is None else None, "block": block, "recipe": recipe})
         res["evaluations"] += 1
         res["transitions"] += 1
         res["traces"] += 1
@@ -309,6 +324,15 @@ def run(task):
 
 
 def replay(case):
+    if "sequence" in case:
+        first, second = case["sequence"]
+        sp = [c["spec"] if c.get("spec") else fam_block(c["block"]["sizes"], far=c["block"]["far"]) for c in (first, second)]
+        o1 = eval_valid(sp[0], first["recipe"])
+        copies = (o1["dis"].copy(), o1["idx"].copy())
+        eval_valid(sp[1], second["recipe"])
+        if not (np.array_equal(o1["dis"], copies[0]) and np.array_equal(o1["idx"], copies[1])):
+            return [{"msg": "candidate table of the first continuum changed after the second call", "case": case}]
+        return []
     spec = case["spec"] if case.get("spec") else fam_block(case["block"]["sizes"], far=case["block"]["far"])
     obs = eval_valid(spec, case["recipe"], warm=case.get("warm"))
     if not obs["ok"]:
